@@ -4,7 +4,8 @@
    [look_tbl] and the closed form [look_fn] used by the extracted model do);
    rgb_to_cmyk is a parameter [cmyk] of the model. *)
 From Coq Require Import List ZArith.
-From LJT Require Import gen.GenPnm model.Pnm proofs.PnmProofs proofs.PnmRoundtrip proofs.PnmTop proofs.PnmExamples.
+From LJT Require Import gen.GenPnm model.Pnm model.Bmp proofs.PnmProofs proofs.PnmRoundtrip proofs.PnmTop proofs.PnmExamples
+  proofs.BmpProofs proofs.BmpRoundtrip proofs.BmpTop.
 Import ListNotations.
 Local Open Scope Z_scope.
 
@@ -78,6 +79,31 @@ Theorem C18_roundtrip_is_identity : forall prec,
 Proof. exact canon_top. Qed.
 Print Assumptions C18_roundtrip_is_identity.
 
+(* (5a) BMP, for EVERY byte string: the colormap and the row buffer are never indexed
+   outside their allocation (B_OOB), accepted images honour the pixel limit and have
+   8-bit samples (CMYK: provided rgb_to_cmyk is bounded) *)
+Theorem C18_bmp_load_safe : forall cmyk maxpixels want bottomup s, bytes s ->
+  (forall l, want = Some (TRgb l) -> 3 <= l_ps l <= 4) ->
+  (forall e, load_bmp cmyk maxpixels want bottomup s = BErr e -> e <> B_OOB) /\
+  (forall w h t rows, load_bmp cmyk maxpixels want bottomup s = BOk (w, h, t, rows) ->
+     1 <= w /\ 1 <= h /\ (maxpixels = 0 \/ w * h <= maxpixels) /\ length rows = Z.to_nat h /\
+     (t <> TCmyk \/ cmyk8_bounded cmyk ->
+      Forall (fun row => Forall (fun x => 0 <= x <= 255) row /\
+                         length row = (Z.to_nat w * Z.to_nat (target_ps t))%nat) rows)).
+Proof. exact bmp_safe_top. Qed.
+Print Assumptions C18_bmp_load_safe.
+
+(* (5b) BMP save then load at 8 bits: gray (palettised) and every RGB-family layout,
+   both row orders, any width the memory manager admits (4 * w <= MAX_ALLOC_CHUNK) *)
+Theorem C18_bmp8_roundtrip : forall cmyk uncmyk t bottomup w h rows,
+  (t = TGray \/ exists l, t = TRgb l /\ 1 <= l_ps l <= 4) ->
+  1 <= w <= 250000000 -> 1 <= h <= 2147483647 ->
+  length rows = Z.to_nat h -> Forall (Forall (fun x => 0 <= x <= 255)) rows ->
+  load_bmp cmyk 0 (Some t) bottomup (save_bmp uncmyk t bottomup w h rows)
+  = BOk (w, h, t, map (canon_row 8 t (Z.to_nat w)) rows).
+Proof. exact bmp_roundtrip_top. Qed.
+Print Assumptions C18_bmp8_roundtrip.
+
 (* ---- non-vacuity ---- *)
 Example C18_ex_text_ok : bytes f_text /\ load_pnm cmyk_exact look_tbl 2 0 None false f_text = Ok (2, 1, TGray, [[1; 2]]).
 Proof. exact ex_text_ok. Qed.
@@ -99,3 +125,18 @@ Example C18_ex_roundtrip_instance :
   load_pnm cmyk_exact look_tbl 12 0 (Some rgba) true (save_pnm no_uncmyk 12 rgba true 2 2 img12)
   = Ok (2, 2, rgba, [[1; 2; 3; 4095; 4095; 0; 7; 4095]; [100; 200; 300; 4095; 4000; 3000; 2000; 4095]]).
 Proof. exact (proj2 ex_roundtrip). Qed.
+Example C18_ex_bmp :
+  bytes f_bmp24 /\
+  load_bmp cmyk_exact 0 (Some rgb) false f_bmp24 = BOk (2, 2, rgb, [[9; 8; 7; 12; 11; 10]; [3; 2; 1; 6; 5; 4]]) /\
+  load_bmp cmyk_exact 0 (Some rgb) true f_bmp24 = BOk (2, 2, rgb, [[3; 2; 1; 6; 5; 4]; [9; 8; 7; 12; 11; 10]]) /\
+  load_bmp cmyk_exact 3 None false f_bmp24 = BErr B_TOOBIG /\
+  load_bmp cmyk_exact 0 None false f_bmp8 = BOk (3, 1, ext_rgb, [[30; 20; 10; 60; 50; 40; 60; 50; 40]]) /\
+  load_bmp cmyk_exact 0 None false f_bmp8_bad = BErr B_RANGE /\
+  load_bmp cmyk_exact 0 (Some TGray) false f_bmp8 = BErr B_BADCS /\
+  load_bmp cmyk_exact 0 None false (firstn 60 f_bmp24) = BErr B_EOF.
+Proof. exact ex_bmp. Qed.
+Example C18_ex_bmp_roundtrip :
+  load_bmp cmyk_exact 0 (Some rgb) false (save_bmp no_uncmyk rgb false 3 2 img8) = BOk (3, 2, rgb, img8) /\
+  load_bmp cmyk_exact 0 (Some TGray) true (save_bmp no_uncmyk TGray true 9 2 img8) = BOk (9, 2, TGray, img8) /\
+  length (save_bmp no_uncmyk rgb false 3 2 img8) = 78%nat.
+Proof. exact ex_bmp_roundtrip. Qed.
